@@ -95,7 +95,7 @@ NO_OVERRIDE = ("unitsPerEm", "openTypeNameRecords", "openTypeGaspRangeRecords")
 
 
 def n_cases(tier):
-    return 6000 if tier == "quick" else 120000
+    return 6000 if tier == "quick" else 100000
 
 
 def budget_s(tier):
